@@ -162,6 +162,12 @@ def run_engine_check(pid, tier, seed, wd):
     else:
         ba = {"keys": keys, "sizes": [1, 2, 4], "max_ver": 3, "max_hits": 1, "seeds": 4}
         bb = {"keys": keys, "sizes": [2, 4], "max_ver": 3, "max_hits": 1, "seeds": 4}
+    if thorough:
+        # keep the exhaustive part within a budget of about 12 M transitions: cap the states explored per
+        # configuration (a truncated configuration is reported as such, never silently)
+        per_cfg = max(3000, 1200000 // max(1, len(cfgs)))
+        ba["max_states"] = per_cfg
+        bb["max_states"] = per_cfg
     job = {"groups": [{"cfgs": cfgs_a, "bounds": ba}, {"cfgs": cfgs_b, "bounds": bb}]}
     info["explore_bounds"] = {"ttl=0": ba, "ttl>0": bb}
     job_path = os.path.join(wd, "explore_job.json")
@@ -175,6 +181,7 @@ def run_engine_check(pid, tier, seed, wd):
     if ev["errors"]:
         raise ToolError("edge validation incomplete: " + "; ".join(ev["errors"][:3]))
     info["edges"] = {"impl_states": ex["states"], "impl_transitions": ex["edges"], "cfgs": len(cfgs),
+                     "truncated_cfgs": ex.get("truncated_cfgs", 0),
                      "validated_lines": ev["lines"], "drift": len(ev["drifts"]),
                      "monitor_failures": len([f for f in ev["fails"] if f[0] == mon])}
     log("[%s] explored the real engines: %d states, %d transitions over %d configurations; "
@@ -331,7 +338,7 @@ def run_engine_check(pid, tier, seed, wd):
         "traces_validated_against_impl": rs["traces"] + checked + len(mscripts),
         "impl_transitions_checked_against_spec": ev["lines"],
         "samples": samples,
-        "exhaustive": True,
+        "exhaustive": ex.get("truncated_cfgs", 0) == 0,
         "explanation": "TLC proved the property on the bounded specification graph; the real engines' own "
                        "bounded state graph was explored exhaustively and every transition checked by TLC "
                        "against the specification; random histories validated step by step.",
